@@ -138,6 +138,48 @@ def iter_acts(script):
             yield from iter_acts(a["script"])
 
 
+# ---- several runs of ONE built project in one process (props/_multirun.py) ------------------------------------------------
+# an act may carry a guard `"only_in_run": r`: it is what it says in the r-th run of the process (1-based) and the act under
+# `"else"` (default: an info log) in every other run — interpreter state, the suite / test / fixture OBJECTS are the same.
+ELSE_ACT = {"a": "log", "level": "info"}
+
+
+def effective_act(act, run_index):
+    if "only_in_run" not in act:
+        return act
+    if act["only_in_run"] == run_index:
+        return {k: v for k, v in act.items() if k not in ("only_in_run", "else")}
+    return dict(act.get("else") or ELSE_ACT)
+
+
+def effective_script(script, run_index):
+    out = []
+    for a in script:
+        a = effective_act(a, run_index)
+        if a["a"] in NESTED:
+            a = dict(a, script=effective_script(a["script"], run_index))
+        out.append(a)
+    return out
+
+
+def project_for_run(project, run_index):
+    """the project the `run_index`-th run of the process really executes (guards resolved): what that run is judged against"""
+    import copy
+    q = copy.deepcopy(project)
+    for fx in q["fixtures"]:
+        fx["setup"] = effective_script(fx["setup"], run_index)
+        fx["teardown"] = effective_script(fx["teardown"], run_index)
+    for _, s, _ in iter_suites(q):
+        if s["setup_suite"]:
+            s["setup_suite"]["script"] = effective_script(s["setup_suite"]["script"], run_index)
+        for h in HOOKS[1:]:
+            if s[h] is not None:
+                s[h] = effective_script(s[h], run_index)
+        for t in s["tests"]:
+            t["script"] = effective_script(t["script"], run_index)
+    return q
+
+
 def act_fails(a):
     return (a["a"] == "log" and a["level"] == "error") or (a["a"] == "check" and not a["ok"]) or a["a"] == "raise"
 
